@@ -61,6 +61,12 @@ def body(chk):
         sels = [("all",), ("slice", a, b_, rnd.randint(1, 4)), ("slice", 0, n, max(1, rpc if rpc < n else 1))]
         cases.append(dict(kind=kind, sample=sample, images=[("HV", "F3", n, p)], rpc=rpc, seed=chk.seed + 10000 + j,
                           fss=["vtrace", rnd.choice(FSS[:3])], sels=sels, origin="random"))
+    # "any positive records_per_chunk": values far above the line count (the request size must stay bounded by the file), on
+    # every filesystem -- a local file is a BufferedReader that allocates what is asked for, memory files clamp
+    for j, rpc in enumerate([2**31, 2**40, 10**15, 2**62, 2**63 - 1, 2**31 - 1, 2**32 + 1]):
+        n, p = 3 + j % 3, 2 + j % 2
+        cases.append(dict(kind=("signal", "processed")[j % 2], sample=("C*8", "IU2")[j % 2], images=[("HH", None, n, p)], rpc=rpc,
+                          seed=chk.seed + 20000 + j, fss=list(FSS), sels=[("all",), ("slice", 1, n, 1)], origin="huge-rpc"))
     # one batched TLC layout export for everything the workers need
     L.tables()
     want = [dict(L.SMALL_LEADER), dict(L.SMALL_LEADER, nmap=0), dict(file="volume", nfp=3), dict(file="trailer", nlow=0, lens=[])]
